@@ -31,6 +31,7 @@ http://www.musicxml.org/xml.html
 from __future__ import absolute_import
 
 import datetime
+from fractions import Fraction
 from functools import reduce
 from xml.dom.minidom import Document
 
@@ -62,6 +63,11 @@ def _lcm(a=None, b=None, terms=None):
         return reduce(lambda a, b: _lcm(a, b), terms)
     else:
         return (a * b) / _gcd(a, b)
+
+
+def _quarter_length(val):
+    """Return the length of a note value in quarter notes as an exact fraction."""
+    return Fraction(4) / Fraction(val).limit_denominator(10000)
 
 
 def _note2musicxml(note):
@@ -103,11 +109,12 @@ def _bar2musicxml(bar):
     # bar attributes
     attributes = doc.createElement("attributes")
 
-    # calculate divisions by using the LCM
-    l = []
+    # divisions per quarter note: the smallest number that makes the length
+    # of every entry (dots and tuplets included) a whole number of divisions
+    lcm = 1
     for nc in bar:
-        l.append(int(value.determine(nc[1])[0]))
-    lcm = _lcm(terms=l) * 4
+        denominator = _quarter_length(nc[1]).denominator
+        lcm = lcm * denominator // _gcd(lcm, denominator)
     divisions = doc.createElement("divisions")
     divisions.appendChild(doc.createTextNode(str(lcm)))
     attributes.appendChild(divisions)
@@ -150,7 +157,7 @@ def _bar2musicxml(bar):
 
             # convert the duration of the note
             duration = doc.createElement("duration")
-            duration.appendChild(doc.createTextNode(str(int(lcm * (4.0 / beat)))))
+            duration.appendChild(doc.createTextNode(str(int(lcm * _quarter_length(nc[1])))))
             note.appendChild(duration)
 
             # check for dots
